@@ -203,6 +203,10 @@ func runCase(r *mon.Run, idx int, c encCase) {
 		if len(c.list) > 8 {
 			// every recipient of a very long list is tried, at one seeded position
 			positions = []int{rng.Intn(3)}
+		} else if !big && idx%7 == 0 {
+			// a long identity list: the matching identity far behind
+			positions = append(positions, 16+rng.Intn(240))
+			r.Count("very_long_identity_lists", 1)
 		}
 		for _, pos := range positions {
 			ids := make([]age.Identity, 0, pos+2)
